@@ -2,7 +2,7 @@
    Statements only; proofs are in proofs/P_C15.v.  Model: model/Control.v (compute_sizes,
    ctl_enable_streaming, stream_params) = cameleon/src/u3v/control_handle.rs enable_streaming
    after the fix commits 9f212d6, 03aec4e, 7004d0a. *)
-From Cam Require Import Outcome Bytes Chunks Cmd Ack Control P_C06 P_C15 P_C15b.
+From Cam Require Import Outcome Bytes Chunks Cmd Ack Control ManifestSpec P_C06 P_C14b P_C15 P_C15b P_C15c.
 
 (* ---- the size computation ------------------------------------------------------------ *)
 
@@ -169,3 +169,65 @@ Theorem C15_params_readback_partial : forall c w a v pre b m post,
     w_segs w2 = pre ++ (b, set_at (a - b) m (le_bytes 4 v)) :: post.
 Proof. exact write_then_read. Qed.
 Print Assumptions C15_params_readback_partial.
+
+(* ---- read-back (full) ---------------------------------------------------------------------------------- *)
+
+(* C15_params_readback.  A conforming device and a usable handle:
+     good_conf (c, w)  (proofs/P_C14b.v) = handle opened, 12 < max_ack < 2^32, request id in u16, ABRM
+       capability cached (it is after open), 24 <= max_cmd, retry >= 1, every remaining transaction plan
+       conforming (pending acknowledges below the retry count, then the conforming acknowledge), and the
+       memory segments separated and inside the 64-bit address space;
+   the SIRM block [sirm, sirm + 48) inside one memory segment (P_C06.range_in);
+   the bootstrap registers that ControlHandle::sirm and StreamParams::from_control read hold
+   (u_field segs a n v: the n-byte little-endian register at a holds v, spec/ManifestSpec.v):
+     ABRM 0x1D8 = sbrm, SBRM+4 = U3V capability with bit 0 (SIRM available) set, SBRM+0x20 = sirm,
+     ABRM 0x1C4 (device capability) and ABRM 0x1CC (maximum device response time) readable,
+   and none of them overlaps the SIRM block (enable_streaming writes into it);
+   whatever the handle has cached of the SBRM / SIRM handles agrees with the device (cache_ok);
+   the SIRM registers hold SI_INFO = info (alignment exponent k = info / 2^24), SI_CONTROL = ctrl,
+   REQUIRED_LEADER_SIZE = rl, REQUIRED_PAYLOAD_SIZE = rp, REQUIRED_TRAILER_SIZE = rt.
+   If enable_streaming returns Ok, then k < 32, the requirement is programmable, compute_sizes yields the plan
+   p = plan_of (2^k) rl rp rt (which covers the requirement, C15_covers), the device memory is the
+   initial one with exactly the seven (eight when bit 0 of ctrl was set) registers replaced, SI_CONTROL
+   holds 1, each of the six size registers holds the plan's value, and StreamParams::from_control on the
+   resulting state returns exactly [leader; trailer; size; count; final1; final2] of the plan. *)
+Theorem C15_params_readback :
+  forall (pre post : list (Z * list Z)) (b sirm : Z) (m : list Z),
+  range_in (pre ++ (b, m) :: post) sirm 48 pre b m post -> 0 <= sirm -> sirm + 48 <= 2 ^ 64 ->
+  forall sbrm ucap devcap resp : Z,
+  let segs := pre ++ (b, m) :: post in
+  u_field segs 472 8 sbrm -> sbrm + 4 < 2 ^ 64 -> u_field segs (sbrm + 4) 8 ucap -> Z.odd ucap = true ->
+  sbrm + 32 < 2 ^ 64 -> u_field segs (sbrm + 32) 8 sirm ->
+  u_field segs 452 8 devcap -> u_field segs 460 4 resp ->
+  472 + 8 <= sirm \/ sirm + 48 <= 472 -> 452 + 8 <= sirm \/ sirm + 48 <= 452 ->
+  460 + 4 <= sirm \/ sirm + 48 <= 460 ->
+  sbrm + 4 + 8 <= sirm \/ sirm + 48 <= sbrm + 4 -> sbrm + 32 + 8 <= sirm \/ sirm + 48 <= sbrm + 32 ->
+  forall info ctrl rl rp rt : Z,
+  u_field segs (sirm + 0) 4 info -> u_field segs (sirm + 4) 4 ctrl -> u_field segs (sirm + 16) 4 rl ->
+  u_field segs (sirm + 8) 8 rp -> u_field segs (sirm + 20) 4 rt ->
+  forall (c : ctl) (w : world) (c' : ctl) (w' : world),
+  good_conf (c, w) -> w_segs w = segs ->
+  (c_sirm c = None \/ c_sirm c = Some sirm) /\ (c_sbrm c = None \/ c_sbrm c = Some (sbrm, ucap)) ->
+  ctl_enable_streaming (c, w) = (Ok tt, (c', w')) ->
+  let k := info / 2 ^ 24 in
+  let p := plan_of (2 ^ k) rl rp rt in
+  k < 32 /\ programmable (2 ^ k) rl rp rt /\
+  (forall s0 : st, compute_sizes (2 ^ k) rl rp rt s0 = (Ok p, s0)) /\
+  covers (2 ^ k) rl rp rt p /\
+  w_segs w' = pre ++ (b, puts b sirm (plan_regs p) (if Z.odd ctrl then put b sirm 4 0 m else m)) :: post /\
+  u_field (w_segs w') (sirm + 4) 4 1 /\
+  (forall off v, In (off, v) (plan_regs p) -> u_field (w_segs w') (sirm + off) 4 v) /\
+  exists s'', stream_params (c', w') =
+              (Ok [sp_leader p; sp_trailer p; sp_size p; sp_count p; sp_final1 p; sp_final2 p], s'').
+Proof. exact params_readback. Qed.
+Print Assumptions C15_params_readback.
+
+(* The hypotheses of C15_params_readback are satisfiable: on the standard device image of the check
+   (ABRM at 0, SBRM at 0x10000, SIRM at 0x20000; k = 3, stream enabled, leader 52, payload 1000,
+   trailer 64) every premise holds (proved inside the lemma by instantiating the theorem), the run is Ok
+   and from_control returns leader 56, trailer 64, size 65536, count 0, final1 1000, final2 0. *)
+Theorem C15_params_readback_nonvacuous :
+  exists c' w' s'', ctl_enable_streaming (ex_good_ctl, ex_world) = (Ok tt, (c', w')) /\
+    stream_params (c', w') = (Ok [56; 64; 65536; 0; 1000; 0], s'').
+Proof. exact readback_example. Qed.
+Print Assumptions C15_params_readback_nonvacuous.
